@@ -136,3 +136,18 @@ def _k04(prop, failure):
     lk = gen.logical_keys(case["keys"])
     selb = gen.mask_as_bool(case.get("mask"), case["n"])
     return any(v is None and k is not None and selb[i] for i, (k, v) in enumerate(zip(lk, case["val"]["vals"])))
+
+
+@predicate("bool_values_with_arrow_nulls")
+def _k05(prop, failure):
+    """boolean values carrying Arrow-level nulls: pyarrow converts them to an object array
+    (True/False/None), which no kernel accepts; the call raises while the numpy data is accepted."""
+    from . import gen
+
+    case = failure.get("case") or {}
+    pair = failure.get("pair") or {}
+    if failure.get("monitor") != "c12.raised":
+        return False
+    vs = case.get("val") or {}
+    return (vs.get("dtype") == "bool" and bool(vs.get("arrow_nulls")) and any(v is None for v in vs.get("vals", []))
+            and pair.get("vc") in gen.ARROW_FAMILY)
